@@ -232,8 +232,13 @@ def log_tags(logs, tags):
     return t
 
 
+def n_ops(prog):
+    return sum(len(t["ops"]) for t in prog["tasks"]) + len(prog["init"])
+
+
 def explore(ctx, progs, label=""):
     jobs = []
+    pending = {}
     for prog in progs:
         ref = S.RefSched(prog).run()
         logs, tags = real_logs(prog)
@@ -242,19 +247,30 @@ def explore(ctx, progs, label=""):
         ctx.case(text, sorted(tags))
         for c in S.CONFIGS:
             if logs[c] != ref:
-                small = shrink(prog, c)
-                res = oracle_fails(small, c) or (ref, logs[c])
-                if oracle_fails(small, c) is None:
-                    small = prog
-                i = first_diff(res[0], res[1])
-                fam = "prio" if c == "prio" else "deque"
-                ctx.violation(f"{fam}:{S.op_kinds(small)}",
-                              f"{label}on the {c} loop the execution log differs from the reference list model "
-                              f"at event {i}: expected {res[0][i:i+1]} got {res[1][i:i+1]}",
-                              {"prog": small, "config": c}, expected=res[0], observed=res[1],
-                              theorem="Asynkit.C08.sleepInsert_spec / taskSwitch_spec / descend_spec / "
-                                      "taskReinsert_spec / reinsert_not_runnable / each_runs_once")
+                pending.setdefault(c, []).append(prog)
         jobs.append((prog, logs))
+    for c, cands in pending.items():
+        cands.sort(key=n_ops)
+        best = None
+        for prog in cands[:3]:
+            small = shrink(prog, c)
+            if oracle_fails(small, c) is None:
+                small = prog
+            if best is None or n_ops(small) < n_ops(best):
+                best = small
+        res = oracle_fails(best, c)
+        if res is None:        # not reproducible: report the original observation
+            best = cands[0]
+            res = (S.RefSched(best).run(), S.RealRunner(best, c, draws=DRAWS).run())
+        i = first_diff(res[0], res[1])
+        fam = "prio-loop" if c == "prio" else "deque-loops"
+        for k in range(len(cands)):
+            ctx.violation(f"{fam}:program-order",
+                          f"{label}on the {c} loop the execution log differs from the reference list model "
+                          f"at event {i}: expected {res[0][i:i+1]} got {res[1][i:i+1]} (ops {S.op_kinds(best)})",
+                          {"prog": best, "config": c}, expected=res[0], observed=res[1],
+                          theorem="Asynkit.C08.sleepInsert_spec / taskSwitch_spec / descend_spec / "
+                                  "taskReinsert_spec / reinsert_not_runnable / each_runs_once")
     if not ctx.lean_ok or not jobs:
         return
     lines, idx = [], []
